@@ -150,6 +150,14 @@ def case_numeric(ctx, p):
     if lam * oracle.stl(held_t, h) < 0.99:
         P("tth", (held_t, h, lam), (held_l, h, lam))
     P("form_b_mat", (held_t,), (held_l,), factor=K)
+    # ... and a fine scan: steps of a few 1e-6 (lattice-parameter refinement), fresh containers each time
+    for k in range(1, 4):
+        step = [x * (1 + k * (2.0e-6 if h[1] % 2 else 4.0e-7)) for x in held_t[:3]] + [float(x) for x in held_t[3:]]
+        P("sintl", (step, h))
+        if lam * oracle.stl(step, h) < 0.99:
+            P("tth", (step, h, lam))
+    P("cell_volume", (step,))
+    P("form_a_mat", (step,))
     B_l = oracle.upper_triangular_factor(oracle.recip_metric(c))
     B_t = K * B_l
     g_l = U @ (B_l @ np.array(h, float))
@@ -231,11 +239,17 @@ def case_hkl(ctx, p):
             mon.check(name, st == sl and rt == rl, observed={"tools": str(rt)[:60], "laue": str(rl)[:60]})
             return
         a, b = np.asarray(rt, float), np.asarray(rl, float)
-        if canonical and a.ndim == 2 and b.ndim == 2 and a.shape == b.shape and len(a):
-            # the order of the members of one family in genhkl_all is decided by numpy's global random numbers in the code as
-            # found, not by the input: the lists are compared as lists of rows in canonical order
-            a, b = a[np.lexsort(a.T[::-1])], b[np.lexsort(b.T[::-1])]
-        ok = a.shape == b.shape and bool(np.array_equal(a, b))
+        if a.ndim == 2 and b.ndim == 2 and a.shape == b.shape and len(a) and a.shape[1] in (3, 4):
+            # "identical lists": the same hkl rows, each with the same sin(theta)/lambda up to rounding (the twins may reach the
+            # number by different arithmetic: 2 pi in, 2 pi out).  Rows are compared in canonical (hkl) order: the order inside
+            # a family of genhkl_all is decided by numpy's global random numbers in the code as found, and the order among rows
+            # whose sin(theta)/lambda agree to rounding by that rounding.  (Sortedness of each list is C06's business.)
+            a, b = a[np.lexsort(a[:, :3].T[::-1])], b[np.lexsort(b[:, :3].T[::-1])]
+            ok = bool(np.array_equal(a[:, :3], b[:, :3]))
+            if ok and a.shape[1] == 4:
+                ok = bool(np.all(np.abs(a[:, 3] - b[:, 3]) <= 1e-12 * np.abs(b[:, 3])))
+        else:
+            ok = a.shape == b.shape and bool(np.array_equal(a, b))
         mon.check(name, ok, observed=None if ok else a.shape, expected=None if ok else b.shape,
                   detail=None if ok else {"group": o.name, "cell": cell, "shell": [smin, smax]})
     seeded("genhkl_all", (cell, smin, smax), dict(sgno=p["no"], cell_choice=p["cc"], output_stl=bool(p["s"] % 2)), canonical=True)
